@@ -141,3 +141,95 @@ Definition chk_C08_u_from_uint128 := chk_C08_u_from_u128.
 Definition chk_C08_u_from_u64 := chk_C08_u_from_u128.
 Definition chk_C08_u_to_u128 n out := mk (uint_to_u128 n) out (eoa_b out (n <? W128) (fun v => v =? n)).
 Definition chk_C08_u_to_uint128 := chk_C08_u_to_u128.
+
+(* ------------------------------------------------------------------ *)
+(* guards: assert_slippage_tolerance (C15), assert_max_spread (C10)     *)
+(* ------------------------------------------------------------------ *)
+From HT Require Import Amm.Guards.
+Definition ures_eqb := res_eqb unit_eqb.
+
+Definition c15_ok (tol : option N) (d0 d1 p0 p1 : N) (out : res unit) : bool :=
+  match tol with
+  | None => is_ok out
+  | Some t =>
+      match out with
+      | Ok _ => (t <=? D) &&
+                (d0 * (D - t) * p1 <? p0 * d1 * D + 2 * d1 * p1) &&
+                (d1 * (D - t) * p0 <? p1 * d0 * D + 2 * d0 * p0)
+      | Err EMaxSlippage =>
+          (t <=? D) &&
+          negb ((d0 * (D - t) * p1 + p1 * d1 <=? p0 * D * d1) &&
+                (d1 * (D - t) * p0 + p0 * d0 <=? p1 * D * d0))
+      | Err EStd => D <? t
+      | Err Panic => (t <=? D) && ((d0 =? 0) || (d1 =? 0) || (p0 =? 0) || (p1 =? 0))
+      | Err _ => false
+      end
+  end.
+Definition chk_C15_slippage tol d0 d1 p0 p1 (out : res unit) : verdict :=
+  V (ures_eqb (assert_slippage_tolerance tol d0 d1 p0 p1) out) (c15_ok tol d0 d1 p0 p1 out) false
+    (match tol, out with Some _, Ok _ => true | Some _, Err EMaxSlippage => true | _, _ => false end).
+
+Definition c10_ok (bp ms : option N) (offer ret spread od rd : N) (out : res unit) : bool :=
+  match normalise_decimals offer ret spread od rd with
+  | Err e => match out with Err e' => err_eqb e e' | Ok _ => false end
+  | Ok (o, r, s) =>
+      match ms, bp with
+      | None, _ => is_ok out
+      | Some ms, Some bp =>
+          match out with
+          | Ok _ => negb (bp =? 0) &&
+                    (let e := o * D / bp in (e <=? r) || ((e - r) * D <? (ms + 1) * e)) &&
+                    (if (ms + 1 <=? D) && (bp <? o * D)
+                     then (o * D - bp) * (D - ms - 1) <? r * D * bp else true)
+          | Err EMaxSpread => negb (o * (D - ms) <=? r * bp)
+          | Err Panic => bp =? 0
+          | Err _ => false
+          end
+      | Some ms, None =>
+          match out with
+          | Ok _ => negb (r + s =? 0) && (s * D <? (ms + 1) * (r + s))
+          | Err EMaxSpread => ms * (r + s) <? s * D
+          | Err Panic => r + s =? 0
+          | Err _ => false
+          end
+      end
+  end.
+Definition chk_C10_max_spread bp ms offer ret spread od rd (out : res unit) : verdict :=
+  V (ures_eqb (assert_max_spread bp ms offer ret spread od rd) out)
+    (c10_ok bp ms offer ret spread od rd out) false
+    (match ms, out with Some _, Ok _ => true | Some _, Err EMaxSpread => true | _, _ => false end).
+
+(* ------------------------------------------------------------------ *)
+(* compute_offer_amount (C12 reverse), lp_share (C05)                  *)
+(* ------------------------------------------------------------------ *)
+Definition agree_compute_offer_amount x y k c (out : res (N * N * N)) : bool :=
+  res_eqb n3_eqb (compute_offer_amount x y k c) out.
+(* the offer must lie between the closed form evaluated at the two ends of the rounding bound of t *)
+Definition c12_rev_ok (x y k c : N) (out : res (N * N * N)) : bool :=
+  match out with
+  | Ok (o, _, m) =>
+      (c <? D) &&
+      (let t_hi := k * D / (D - c) in
+       let t_lo := (k * D * D - k * (D - c)) / (D * (D - c)) in
+       (t_lo <? y) && (x * y / (y - t_lo) - x <=? o) &&
+       (if t_hi <? y then o <=? x * y / (y - t_hi) - x else true))
+  | Err _ => true
+  end.
+Definition chk_C12_compute_offer_amount x y k c out : verdict :=
+  V (agree_compute_offer_amount x y k c out) (c12_rev_ok x y k c out) false (is_ok out).
+
+Definition c05_share_ok (wl : bool) (min0 min1 T d0 d1 r0 r1 : N) (out : res N) : bool :=
+  match out with
+  | Ok m =>
+      if T =? 0 then
+        wl && (min0 <=? d0) && (min1 <=? d1) && (m * m <=? d0 * d1) && (d0 * d1 <? (m + 1) * (m + 1))
+      else
+        (m * r0 <=? d0 * T) && (m * r1 <=? d1 * T) &&
+        ((d0 * T <? (m + 1) * r0) || (d1 * T <? (m + 1) * r1))
+  | Err EStd => (T =? 0) && (negb wl || (d0 <? min0) || (d1 <? min1))
+  | Err Panic => true
+  | Err _ => false
+  end.
+Definition chk_C05_lp_share (wl : bool) min0 min1 T d0 d1 r0 r1 (out : res N) : verdict :=
+  V (nres_eqb (lp_share wl min0 min1 T d0 d1 r0 r1) out)
+    (c05_share_ok wl min0 min1 T d0 d1 r0 r1 out) false (is_ok out).
